@@ -47,7 +47,10 @@ ASSUMPTIONS = [
     "relaxation: a failed creation whose directory reopens with exactly the complete new input is accepted",
 ]
 PROBES = [
+    "mpi_failing_creation",
+    "mpi_reader_rank_raised",
     "stall_fault_armed",
+    "source_read_memerror_fired",
     "libc_read_errno_fired",
     "read_fault_in_input_file",
     "libc_errno_fired",
@@ -156,6 +159,10 @@ def gen_cases(tier: str, verif_seed: int, runs: int | None = None) -> list[dict]
             p = prng()
             cases.append(_base(p, w))
             p = prng()
+            c = _base(p, w, source="fits")
+            c["fits_hdu"] = p.choice([2, 3])  # the table sits behind decoy extensions (reader option hdu)
+            cases.append(c)
+            p = prng()
             cases.append(_base(p, w, prior="catalog", overwrite=True))
             p = prng()
             cases.append(_base(p, w, prior="catalog_trees", overwrite=True))
@@ -178,6 +185,10 @@ def gen_cases(tier: str, verif_seed: int, runs: int | None = None) -> list[dict]
                 for k in (0, 1, 2, 4):
                     p = prng()
                     cases.append(_base(p, w, fault=dict(kind="stalled_peer", k=k)))
+            # --- an allocation fails while the k-th chunk (or the probe) is read from the source
+            for k in (1, 2, 3, 5):
+                p = prng()
+                cases.append(_base(p, w, source="traced", fault=dict(kind="source_memerror", k=k)))
             # --- errno at every mutating fs event
             for en in ("ENOSPC", "EACCES", "EIO", "EROFS"):
                 p = prng()
@@ -210,6 +221,13 @@ def gen_cases(tier: str, verif_seed: int, runs: int | None = None) -> list[dict]
             c["chunksize"] = p.choice([16, 20, 25])
             c["pq_rowgroup"] = p.choice([7, 10, 16])
             cases.append(c)
+        # --- the same fail-stop clauses on several MPI ranks (fresh interpreter with the fake mpi4py)
+        for size in (2, 3, 4):
+            for pos in ("middle", "last"):
+                p = prng()
+                c = _base(p, 1, fault=dict(kind="nonfinite", column=p.choice(["ra", "dec", "w", "z"]), value=p.choice(["nan", "inf", "-inf"]), pos=pos, offset=p.below(50)))
+                c.update(mode="mpi", size=size, mw=p.choice([None, None, 2, 3]), force_mode=p.choice([None, None, "sync", "eager"]))
+                cases.append(c)
     if runs is not None:
         cases = cases[:runs]
     return cases
@@ -220,6 +238,8 @@ def case_size(case: dict) -> int:
 
 
 def shrinks(case: dict):
+    if case.get("mode") == "mpi":
+        return
     if case.get("shim_enumerate"):
         k = case.get("_focus")
         if k is not None:
@@ -317,6 +337,9 @@ def evaluate(case: dict, o: dict) -> tuple[dict | None, str | None]:
     if kind == "stalled_peer":
         # giving up may be reported (raise) or overcome (retry): both are fine, each with its obligations
         fired = bool(o["fault_fired"].get("timeouts_fire")) and o["outcome"] != "returned"
+    if kind == "source_memerror":
+        # the failed read may be reported or retried (then the catalog must be exact)
+        fired = bool(o["fault_fired"].get("source_memerror")) and o["outcome"] != "returned"
     expect_raise = kind is not None and fired
     o["fault_effective"] = expect_raise
 
@@ -382,7 +405,7 @@ def evaluate(case: dict, o: dict) -> tuple[dict | None, str | None]:
         elif opened:
             # accepted only if it holds exactly the complete new input
             ok = False
-            if kind in ("fs_errno", "pool_memerror", "writer_killed", "stalled_peer"):
+            if kind in ("fs_errno", "pool_memerror", "writer_killed", "stalled_peer", "source_memerror"):
                 try:
                     cache = orc.read_cache(target)
                     cols, parts, amb = orc.expected_partition(
@@ -547,7 +570,31 @@ def _run_shim_case(case: dict) -> dict:
         shutil.rmtree(root, ignore_errors=True)
 
 
+def _run_mpi_case(case: dict) -> dict:
+    """A failing creation on several MPI ranks: checks/c09_mpi.py in a fresh interpreter (the
+    library selects its MPI code paths when it is imported)."""
+    import json
+    import subprocess
+    import sys
+
+    helper = os.path.join(os.path.dirname(os.path.abspath(__file__)), "c09_mpi.py")
+    env = dict(os.environ, PYTHONHASHSEED="0", OMP_NUM_THREADS="1")
+    env.pop("LD_PRELOAD", None)
+    try:
+        p = subprocess.run([sys.executable, helper], input=json.dumps(case), capture_output=True, text=True, timeout=100, env=env)
+    except subprocess.TimeoutExpired:
+        return dict(verdict="harness_error", error="MPI helper interpreter timed out")
+    lines = [ln for ln in p.stdout.splitlines() if ln.startswith("{")]
+    if p.returncode != 0 or not lines:
+        return dict(verdict="harness_error", error=f"MPI helper failed ({p.returncode}): {p.stderr[-800:]}")
+    res = json.loads(lines[-1])
+    res["faults"] = {"nonfinite": 1}
+    return res
+
+
 def run_case(case: dict) -> dict:
+    if case.get("mode") == "mpi":
+        return _run_mpi_case(case)
     if (case.get("fault") or {}).get("kind") == "libc_errno":
         return _run_shim_case(case)
     root = tempfile.mkdtemp(prefix="c09-", dir=wl.scratch_root())
@@ -587,6 +634,8 @@ def run_case(case: dict) -> dict:
                     probes["control_fault_free"] = probes.get("control_fault_free", 0) + 1
                 if kind == "stalled_peer":
                     probes["stall_fault_armed"] = probes.get("stall_fault_armed", 0) + 1
+                if kind == "source_memerror" and o["fault_fired"].get("source_memerror"):
+                    probes["source_read_memerror_fired"] = probes.get("source_read_memerror_fired", 0) + 1
                 if effective:
                     faults[kind] = faults.get(kind, 0) + 1
                     if "pos" in f:
